@@ -48,6 +48,9 @@ func lockOpOf(info *types.Info, call *ast.CallExpr) *lockOp {
 			owner = n.Obj().Name()
 		}
 	}
+	if o := fieldOwnerCanon(f); o != "" {
+		owner = o // a lock that was moved (with what it guards) into a struct of its own keeps the name the table knows
+	}
 	return &lockOp{lock: owner + "." + fieldCanon(f), op: se.Sel.Name, field: f, recv: ms.X}
 }
 
